@@ -1118,6 +1118,9 @@ fn tasks_strategy_base(t: Tier) -> BoxedStrategy<Scenario> {
             max_producers: 2,
             sink_tasks: true,
             leave: 3,
+            // gated producers wait until their value has been delivered before they go on (and
+            // drop their sender): without that the last sender's drop rescues every sleeper
+            gates: true,
             w_clone_rx: 1,
             ..TrafficParams::default()
         },
